@@ -58,6 +58,39 @@ seed("C07_m1", "C07", "Model_cfit.nll_grad_hessian drops resolution_size", "mode
 seed("C07_m2", "C07", "grad_hessp_batch: second-order normalisation term written with -int_g^2 instead of int_h", "extended likelihood AND the Hessian-vector entry point",
      "caught by ./check C07 (H.p layer for the extended model): 5 failures")
 
+seed("C14_m1", "C14", "DecayChain.topology_id cached per object ignoring the 'identical' argument", "both identical modes queried on the same chain object (first call wins)",
+     "caught by ./check C14 (the check queries both modes; the run stops at the first inconsistent answer, reported without a model-level witness)")
+seed("C14_m2", "C14", "topology_id: canonical form sorted by length only", "two topologies whose sorted particle sets tie in length (>= 4 bodies)",
+     "caught by ./check C14 (topology_same / chains map vs model on 4..6 body chains): 23 failures")
+seed("C16_m1", "C16", "VarsManager.set_same: membership tested against the merged list", "set_same over names that already belong to another group / non-head link",
+     "caught by ./check C16 (operation sequences with overlapping set_same): 45 failures")
+seed("C16_m2", "C16", "refresh_vars / std_polar: trainability of the imaginary part read from the real part", "complex variable with the real part fixed and the imaginary part free (or the reverse)",
+     "caught by ./check C16 (mixed fixed/free components): 2 failures")
+seed("C19_m1", "C19", "Decay.get_ls_list: result shared through a module-level cache keyed without the C parity", "c_break: False AND two decays with the same (J,P) combination and different C",
+     "missed at first (such pairs were rare in the generator); caught after adding the C-parity family (every 5th config: candidates of one slot share J^P and differ in C): 4 failures", "generator strengthened")
+seed("C19_m2", "C19", "alias keys do not override an explicitly given full key", "a particle given in an included file AND overridden in the main file through an alias key",
+     "caught by ./check C19 (include + alias override family): 8 failures")
+seed("C18_m1", "C18", "LazyCall on-disk cache file name no longer contains the batch size", "cached_lazy_call (HeavyCall with a cache directory) AND the same directory used with two batch sizes",
+     "missed at first (no on-disk cache in the scenarios); caught after adding disk-cached HeavyCall objects visited with several batch sizes by two objects: 24 failures", "check strengthened")
+seed("C18_m2", "C18", "cached-data file: weight_scale applied again when the file is read back", "data: cached_data AND weight_scale: True AND a second ConfigLoader reading the file",
+     "missed at first (cached-data round trip only on a synthetic dict); caught after adding the ConfigLoader scenario direct load == writing run == reading run under bg_weight / weight_scale / weight files: 4 failures", "check strengthened")
+seed("C17_m1", "C17", "temp_total_gls_one: old flag read after earlier objects were already set", "a Decay object shared by several chains (cascade) with >= 2 LS couplings",
+     "missed at first (3-body models have no shared decay); caught after adding the 4-body cascade model C: 44 failures", "check strengthened")
+seed("C17_m2", "C17", "set_used_chains returns early (without copying) when the selection is unchanged", "an already restricted model AND a temporary selection naming exactly the active chains plus an index",
+     "missed at first; caught after adding restricted histories with mixed name+index selections: 70 failures", "check strengthened")
+seed("C20_m1", "C20", "multi_sampling: thinning after a late bound increase loses the kept events' bookkeeping", "a weight above the running bound found in a late batch",
+     "caught by ./check C20 (scripted weight spikes): 12 failures")
+seed("C20_m2", "C20", "Hist1D.histogram: emptiness of a bin judged from the weighted count", "a bin whose weights cancel exactly (signal minus sideband)",
+     "missed at first; caught after adding the 'cancel' weight family (see INDEX for the count)", "generator strengthened")
+seed("C02_m1", "C02", "SU2M.get_euler_angle: alpha, gamma taken from products (loses the double cover)", "half-integer final-state spin AND alignment rotation beyond 2 pi sheet",
+     "caught by ./check C02: 28 failures")
+seed("C02_m2", "C02", "cal_angle_from_momentum_id_swap: random_z not forwarded to the exchanged copy", "identical_particles declared AND random_z: False AND a moving parent",
+     "missed at first (no declared-identical configuration in the regular stream); caught after adding the identical-vector configuration (see INDEX)", "check strengthened")
+seed("C06_m1", "C06", "cfit: background normalisation integral cached on the (lru_cached) model object", "cfit AND one ConfigLoader serving a second get_fcn(all_data) with another phase-space sample AND non-constant bg_value",
+     "see INDEX", "")
+seed("C06_m2", "C06", "GaussianConstr.get_constrain_term skips non-trainable variables", "gauss_constr on a variable that is fixed when the NLL is evaluated (likelihood scan)",
+     "see INDEX", "")
+
 if __name__ == "__main__":
     lines = ["# Seeded changes (confirmed in a scratch worktree: demo passes clean, fails with the change, pinned tests unchanged)", "",
              "| id | property | change | needs | detection |", "|---|---|---|---|---|"]
